@@ -454,6 +454,7 @@ def cv(ctx):
         out.append(undecided('CV2', 'floor', 'no Condvar::wait site found (expected 1)'))
     # notify sites
     n_notify = 0
+    seen_keys = {}
     for fn in F.crate_fns():
         H = None
         for bb, t in fn.calls():
@@ -463,7 +464,10 @@ def cv(ctx):
             n_notify += 1
             e = fn.expr_of_operand(t['args'][0])
             root = expr_root(e)
-            key = '%s|%s' % (short(fn.name), name.split('::')[-1])
+            # keyed by the enclosing named function: whether the notify sits in a closure, a loop or an extracted helper is not part of the identity
+            base = '%s|%s' % (short(fn.root or fn.name), name.split('::')[-1])
+            seen_keys[base] = seen_keys.get(base, 0) + 1
+            key = base if seen_keys[base] == 1 else '%s#%d' % (base, seen_keys[base])
             stored = _stored_condvar(ctx, fn, e)
             cf = _condvar_field(ctx, e)
             if stored and cf is not None and cf not in wait_fields and None not in wait_fields:
